@@ -1475,7 +1475,7 @@ def run(ctx):
     _run_histories(ctx, root, drv, hists, budget(30), 20)
     mark('legacy+crash')
     # (i)+(ii) orbax (default back-end)
-    n_orb = 10 if not thorough else 150
+    n_orb = 10 if not thorough else 110
     hists3 = [gen_history(rng, 'orbax', rng.choice(iomodes), rng.randrange(4, 7), crash=(k % 2 == 0)) for k in range(n_orb)]
     _run_histories(ctx, root, drv, hists3, budget(48), 4)
     mark('orbax')
@@ -1528,6 +1528,10 @@ def run(ctx):
     _set_backend('orbax')
     fio.set_mode(_ORIG_IOMODE)
     shutil.rmtree(root, ignore_errors=True)
+    try:
+      os.rmdir('/tmp/C11-check')  # only when no other run is using it
+    except OSError:
+      pass
 
 
 def _run_case(ctx, root, drv, obj):
@@ -1580,6 +1584,10 @@ def replay(ctx, obj):
     _set_backend('orbax')
     fio.set_mode(_ORIG_IOMODE)
     shutil.rmtree(root, ignore_errors=True)
+    try:
+      os.rmdir('/tmp/C11-check')  # only when no other run is using it
+    except OSError:
+      pass
   known = {e['key'] for e in load_findings('C11') if e.get('status') == 'finding'}
   for v in ctx.violations:
     print('  ', v['key'], '-', v['what'][:300])
